@@ -46,14 +46,16 @@ func H_C19_Tags(v *verifrt.T) {
 	for _, d := range []string{"out", "log", "cache"} {
 		os.MkdirAll(filepath.Join(root, d), 0o755)
 	}
-	pats := []*regexp.Regexp{nil, regexp.MustCompile(`^i/`), regexp.MustCompile(`^d`)}
+	// (the second and third pattern overlap: "i/x" matches both — the FIRST wins)
+	pats := []*regexp.Regexp{nil, regexp.MustCompile(`^i/`), regexp.MustCompile(`^i`), regexp.MustCompile(`^d`)}
 	conf := &sts.SourceConf{
 		Name: "src", OutDir: filepath.Join(root, "out"), LogDir: filepath.Join(root, "log"), Threads: 1,
 		Target: &sts.TargetConf{Name: "t", Host: "h:1992"},
 		Tags: []*sts.TagConf{
 			{Method: sts.MethodHTTP, Order: sts.OrderFIFO, Delete: true},
 			{Pattern: pats[1], Method: sts.MethodHTTP, Order: sts.OrderFIFO, Priority: 9},
-			{Pattern: pats[2], Method: sts.MethodHTTP, Order: sts.OrderFIFO, Priority: 5, Delete: true},
+			{Pattern: pats[2], Method: sts.MethodHTTP, Order: sts.OrderFIFO, Priority: 0, Delete: true},
+			{Pattern: pats[3], Method: sts.MethodHTTP, Order: sts.OrderFIFO, Priority: 5, Delete: true},
 		},
 	}
 	c := &clientApp{conf: conf, dirCache: filepath.Join(root, "cache")}
@@ -87,6 +89,9 @@ func H_C19_Tags(v *verifrt.T) {
 	}
 	got := c.broker.Conf.Tagger(name)
 	v.AssertKF(got == want, "C19.O4 the sender applies to a file the first tag whose pattern matches its group key, the default tag otherwise", "KF-C19-name-is-pattern-text", isPatternText)
+	if want == pats[1].String() {
+		v.Reach("first-of-two-matching-tags")
+	}
 	if want == "" {
 		v.Reach("default")
 	} else if key == name {
